@@ -28,6 +28,10 @@ def obligations(tier):
            bounds="forall year 2014..2049, doy 1..366, ms 0..86399999", harness="harness/h_time.py", func="ydms_ok", timeout=to),
         Ob("C17.ydus", "X", "microsecond variant = date of the ms stamp + us, exact to the microsecond (callable and constant reference)",
            ["ceos_alos2.datatypes:DatetimeYdus._decode"], bounds="forall us 0..86399999999; 7 enumerated reference date-times (boundary days, non-zero time of day)", outside="symbolic reference dates: CrossHair cannot run datetime.combine on its symbolic date model", harness="harness/h_time.py", func="ydus_ok", timeout=to),
+        Ob("C17.ydus.live", "X", "the microsecond adapter inside the live level 1.1 line record uses the date of ITS OWN line: consecutive lines / files with different dates "
+           "(midnight crossing, second product) read back right", ["ceos_alos2.datatypes:DatetimeYdus._decode", "ceos_alos2.sar_image.signal_data:signal_data_record"],
+           bounds="forall us1, us2; " + ("7 consecutive pairs" if tier == "quick" else "all 49 ordered pairs") + " of 7 reference dates", harness="harness/h_time.py", func="ydus_live_ok",
+           params={"all_pairs": tier != "quick"}, timeout=3 * to),
         Ob("C17.att", "X", "attitude point time = convention instant", ["ceos_alos2.sar_leader.attitude:transform_time", "ceos_alos2.sar_leader.metadata:fix_attitude_time"],
            bounds="forall year 2014..2049, doy 1..366, ms", harness="harness/h_time.py", func="att_ok", timeout=to),
         Ob("C17.att.const", "X", "attitude time minus convention is one constant for all inputs, years and both sub-groups",
@@ -60,6 +64,33 @@ def _quantum(timespec):
     if q is None:
         raise ValueError("Unknown timespec value")
     return q
+
+
+def _pp_sweep(f):
+    """seconds-of-day values at ms / sub-ms resolution on boundary dates through the real function"""
+    import datetime as real_dt
+    from fractions import Fraction
+
+    bad = []
+    xs = [k / 1000.0 for k in range(0, 86400000, 9973)] + [1.001, 2.003, 43200.00025, 86399.999999, 86399.999, 0.0005, 59.9999995, 3600.5, 12.000001]
+    for (y, m, d) in ((2020, 2, 29), (2014, 12, 31)):
+        for x in xs:
+            text = f"{y:4d}{m:4d}{d:4d}"
+            us = Fraction(x) * 10**6
+            r = int(us)
+            frac = us - r
+            if frac > Fraction(1, 2) or (frac == Fraction(1, 2) and r % 2):
+                r += 1
+            want = (real_dt.datetime(y, m, d) + real_dt.timedelta(microseconds=r)).isoformat()
+            try:
+                got = f({"date": text, "day_of_year": 1, "seconds_of_day": x})
+            except Exception as e:  # noqa: BLE001
+                got = f"raised {type(e).__name__}"
+            if got != want:
+                bad.append({"date": text, "seconds_of_day": x, "got": got, "want": want})
+                if len(bad) > 5:
+                    return bad
+    return bad
 
 
 def ob_pp(tier):
@@ -142,7 +173,12 @@ def ob_pp(tier):
             S.holds(f"pp:{y}-{m}-{d}", dom, got == want, show=[x])
             n += 1
     except Exception as e:  # noqa: BLE001
-        return {"verdict": "inconclusive", "reason": f"proxy run failed: {type(e).__name__}: {e}"}
+        # the implementation does arithmetic the proxies cannot carry (e.g. int() of the seconds): sweep the real function instead -
+        # this can only find violations, it cannot discharge the obligation
+        bad = _pp_sweep(PP.transform_composite_datetime)
+        if bad:
+            return {"verdict": "violated", "cex": {"replay": bad[:4]}, "finding_key": "C17.pp", "queries": 1}
+        return {"verdict": "inconclusive", "reason": f"proxy run failed: {type(e).__name__}: {e} (sweep of the real function found no deviation)"}
     res = S.result()
     if res["verdict"] == "violated":
         bad = []
